@@ -3,3 +3,4 @@ import MypyVerif.Props.C16
 import MypyVerif.Props.C02
 import MypyVerif.Props.C04
 import MypyVerif.Props.C09
+import MypyVerif.Props.C07
